@@ -38,6 +38,7 @@ type C12Sheet struct {
 	CmdErr       int // value of -e (0 = option not given)
 	Delim        bool
 	LongLine     bool // one legacy sample line is longer than 64 KiB
+	LongHeader   bool // more than 3 KiB of comments before the first sample line
 	ClosePrimers bool // the forward primers of two markers differ by one substitution
 	Text         string
 }
@@ -441,6 +442,14 @@ func c12RenderCSV(r *rand.Rand, sh *C12Sheet, delim byte) string {
 	var b strings.Builder
 	if r.Intn(2) == 0 {
 		b.WriteString("# sample sheet\n")
+	}
+	if r.Intn(8) == 0 {
+		// a documented sheet (as the official template is): the comment block and the @param lines
+		// take more than the 3 KiB that format sniffers look at by default
+		for i := 0; i < 45+r.Intn(30); i++ {
+			fmt.Fprintf(&b, "# %02d %s\n", i, strings.Repeat("documentation of the run ", 2+r.Intn(3)))
+		}
+		sh.LongHeader = true
 	}
 	for _, l := range p {
 		b.WriteString(l + "\n")
